@@ -826,8 +826,8 @@ package ion
 // A big integer is never handed to the fixed-width paths unless it fits them (C13).
 //@ func (*binaryWriter).WriteBigInt
 //@ modifies *
-//@ atcall[C13] (*binaryWriter).WriteInt val != nil && val.IsInt64() && a1 == val.Int64()
-//@ atcall[C13] (*binaryWriter).WriteUint val != nil && val.IsUint64() && a1 == val.Uint64()
+//@ atcall-if-any[C13] (*binaryWriter).WriteInt val != nil && val.IsInt64() && a1 == val.Int64()
+//@ atcall-if-any[C13] (*binaryWriter).WriteUint val != nil && val.IsUint64() && a1 == val.Uint64()
 //@ atcall[C13] (*binaryWriter).writeBigInt a1 == val
 //@ ensures[C12,C19] old(w.err) != nil ==> err == old(w.err) && w.err == old(w.err)
 //@ ensures[C12,C19] err != nil ==> w.err != nil
@@ -1672,7 +1672,7 @@ package ion
 //@ invariant loop0 true
 //@ atcall[C10] Catalog.FindExact :: Catalog, string, int :: [name string, version int] a0 == cat && a1 == name && a2 == version && version >= 1 && name != "" && name != "$ion"
 //@ atcall[C10] Catalog.FindLatest :: Catalog, string :: [name string, version int] a0 == cat && a1 == name && cat.FindExact(name, version) == nil
-//@ atcall[C10] SharedSymbolTable.MaxID :: SharedSymbolTable :: [imp SharedSymbolTable, version int, maxID int64] maxID < 0 && a0 == imp && imp != nil && imp.Version() == version
+//@ atcall[C10] SymbolTable.MaxID :: SymbolTable :: [imp SharedSymbolTable, version int, maxID int64] maxID < 0 && a0 == imp && imp != nil && imp.Version() == version
 //@ atcall[C10] SharedSymbolTable.Adjust :: SharedSymbolTable, uint64 :: [imp SharedSymbolTable, version int, maxID int64] a0 == imp && a1 == uint64(maxID) && (maxID >= 0 || imp.Version() == version)
 //@ ensures[C10] err == nil && result != nil && cat == nil ==> vcIsBogusSST(result)
 //@ ensures[C10] err == nil && result != nil && cat == nil ==> vcAsBogusSST(result).version >= 1
@@ -1693,9 +1693,6 @@ package ion
 
 // The serialised local symbol table declares every import after the system table with its
 // name, version and max_id, and every local symbol, in order, none skipped (C11).
-//@ interface SharedSymbolTable.MaxID
-//@ pure
-
 //@ func NewSymbolToken
 //@ trusted thin: called by contract
 //@ modifies nothing
